@@ -154,8 +154,8 @@ def real_adapter(kind, cfg, adapter):
     import cutadapt.adapters as A
     cls = getattr(A, CLASSES[kind])
     kw = dict(max_errors=cfg["rate"], read_wildcards=cfg["read_wildcards"], adapter_wildcards=cfg["adapter_wildcards"], indels=cfg["indels"])
-    if kind not in ("prefix", "suffix"):
-        kw["min_overlap"] = cfg["min_overlap"]
+    # the command line passes min_overlap (-O) to every adapter class, anchored ones included (they must ignore it)
+    kw["min_overlap"] = cfg.get("min_overlap_given", cfg["min_overlap"])
     if kind.endswith("_fa"):
         kw["force_anywhere"] = True
     return cls(adapter, **kw)
@@ -312,8 +312,7 @@ def build_adapter(it, kind, adapter, cfg, mock_prefilter):
         it.overrides["SingleAdapter._make_kmer_finder"] = lambda it_, *a, **k: A.MockKmerFinder()
     cls = it.getattr(A, CLASSES[kind])
     kw = dict(max_errors=cfg["rate"], read_wildcards=cfg["read_wildcards"], adapter_wildcards=cfg["adapter_wildcards"], indels=cfg["indels"])
-    if kind not in ("prefix", "suffix"):
-        kw["min_overlap"] = cfg["min_overlap"]
+    kw["min_overlap"] = cfg.get("min_overlap_given", cfg["min_overlap"])
     if kind.endswith("_fa"):
         kw["force_anywhere"] = True
     return it.call_value(cls, [adapter], kw)
